@@ -9,7 +9,6 @@ and judges each case:
 -/
 import Kap.Basic
 import Kap.Spec.C17
-import Kap.Model.C17Quiescent
 open Kap Kap.C17
 
 namespace Kap.C17.Drv
@@ -254,7 +253,7 @@ def judge (_id : String) (lines : Array String) : Verdict := Id.run do
     if evToks.any (fun t => t.startsWith "o:") then return .specfail "no-overlap" s!"{" ".intercalate opT}: two Execute calls of one task at once ({evTok})"
     let some obsEvs := evToks.mapM parseEv | return .badop l
     let callEv : List Ev := match op with
-      | .sched id sc off last => if status == "ok" then [.sched id sc off last] else [.schedErr id]
+      | .sched id sc off last _ => if status == "ok" then [.sched id sc off last] else [.schedErr id]
       | .rel id => [.rel id]
       | .adv d => if status == "refused" then [] else [.clock (mon.now + d)]
       | .done .. => []
@@ -289,7 +288,7 @@ def judge (_id : String) (lines : Array String) : Verdict := Id.run do
     let some obsEvs := evToks.mapM parseEv | return .badop l
     let s := c.model
     let callEv : List Ev := match op with
-      | .sched id sc off last => if status == "ok" then [.sched id sc off last] else [.schedErr id]
+      | .sched id sc off last _ => if status == "ok" then [.sched id sc off last] else [.schedErr id]
       | .rel id => [.rel id]
       | .adv d => if status == "refused" then [] else [.clock (c.mon.now + d)]
       | .done .. => []
@@ -298,7 +297,7 @@ def judge (_id : String) (lines : Array String) : Verdict := Id.run do
     | .ok m' => c := { c with mon := m' }
     -- (2) observed = model
     let expStatus : String := match op with
-      | .sched _ sc _ last => if (c.env.nx sc last).isSome then "ok" else "err"
+      | .sched _ sc _ last _ => if (c.env.nx sc last).isSome then "ok" else "err"
       | .rel _ => "ok"
       | .adv _ => if s.tick then "refused" else "ok"
       | .done id _ _ => if (aget s.busy (c.env.wk id)).any (fun it => it.id == id) then "ok" else "noinflight"
